@@ -207,6 +207,7 @@ class Trace:
             def handle_assembled_query(self_, packets, addr, port, transport, v6):
                 if self_.zc is zc and tr.cur is not None:
                     seen = []
+                    seen_blind = []
                     for i, r in enumerate(tr.uni.recs):
                         # the cached copy of this record, read from the store itself under the lower-cased name (what "the host
                         # saw multicast" means; not through `async_get_unique`, which is code under test)
@@ -214,7 +215,20 @@ class Trace:
                         e = store.get(r) if store is not None else None
                         if e is not None:
                             seen.append((i, int(e.created), int(e.ttl)))
-                    tr.cur["asm"] = dict(seen=seen, addr=addr, port=port, npkts=len(packets), first_now=int(packets[0].now) if packets else None,
+                        # ... and ignoring the scope id an IPv6 socket stamps on the address records it receives (the host's own records
+                        # have none): the freshest cached record that is the same on the wire
+                        eb = e
+                        if e is None and store is not None and getattr(r, "address", None) is not None:
+                            # no exact copy: the first copy heard on an IPv6 socket (same record on the wire, another scope id), in the
+                            # store's own order -- what a scope-blind look-up (notes/fixes/D29-candidate.diff) finds
+                            eb = next((x for x in store if x.type == r.type and x.class_ == r.class_ and getattr(x, "address", None) == r.address), None)
+                        if eb is not None:
+                            seen_blind.append((i, int(eb.created), int(eb.ttl)))
+                    # what the code's own look-up finds: the scope-blind view on a tree with the candidate repair of D29
+                    # (`_QueryResponse._get_unique_ignoring_scope`), the exact-match view otherwise
+                    if hasattr(qh._QueryResponse, "_get_unique_ignoring_scope"):
+                        seen = seen_blind
+                    tr.cur["asm"] = dict(seen=seen, seen_blind=seen_blind, addr=addr, port=port, npkts=len(packets), first_now=int(packets[0].now) if packets else None,
                                          last_now=int(packets[-1].now) if packets else None, datas=[bytes(p.data) for p in packets])
                 return orig(self_, packets, addr, port, transport, v6)
             return handle_assembled_query
